@@ -179,11 +179,21 @@ fn normalize(obs: &mut crate::case::Observation) {
 }
 
 pub fn guard_job(prog: &Program, spec: SpecId, guard: bool, designators: bool, run0: &RunCfg, bound: usize) -> Option<Job> {
+    guard_job_in(prog, spec, guard, designators, run0, bound, world(designators, false), world(designators, true))
+}
+
+/// `real` is the pre-state of the run under test, `mutilated` the one of the comparison program.
+#[allow(clippy::too_many_arguments)]
+pub fn guard_job_in(prog: &Program, spec: SpecId, guard: bool, designators: bool, run0: &RunCfg, bound: usize, real: MemDb, mutilated: MemDb) -> Option<Job> {
     if !spec.is_enabled_in(prog.min_spec) {
         return None;
     }
-    let name = format!("c12:{}:{}:guard={}:designators={}", prog.name, spec_name(spec), guard, designators);
-    let case = Case::new(name, spec, world(designators, false), prog.txs.clone());
+    let name = if prog.name == "fixed-gas-call" {
+        format!("c12:{}:{}:guard={}:designators={}", prog.txs[0].0, spec_name(spec), guard, designators)
+    } else {
+        format!("c12:{}:{}:guard={}:designators={}", prog.name, spec_name(spec), guard, designators)
+    };
+    let case = Case::new(name, spec, real, prog.txs.clone());
     let mut run = run0.clone();
     run.safety = if guard { DelegatedSafetyConfig::create_only() } else { DelegatedSafetyConfig::disabled() };
     // the last program installs its designator in the block itself
@@ -193,7 +203,7 @@ pub fn guard_job(prog: &Program, spec: SpecId, guard: bool, designators: bool, r
     let expected: Arc<OnceLock<Expected>> = Arc::new(OnceLock::new());
     let ref_case = if halts {
         // stock revm on the program whose delegate targets cannot create
-        Case::new(case.name.clone(), spec, world(designators, true), prog.txs.clone())
+        Case::new(case.name.clone(), spec, mutilated, prog.txs.clone())
     } else {
         case.clone()
     };
@@ -222,11 +232,25 @@ pub fn guard_job(prog: &Program, spec: SpecId, guard: bool, designators: bool, r
     Some(job)
 }
 
-/// PUSH1 0 x 8 ; <opcode> ; STOP — called as an ordinary contract.
-pub fn opcode_program(opcode: u8) -> Vec<u8> {
+/// Stack priming of the opcode sweep: eight zeros (every operand zero), nothing (stack underflow
+/// for every operand-taking opcode), eight times 0xffffffff (huge offsets and sizes: memory
+/// expansion and init-code size limits fail before anything else).
+#[derive(Clone, Copy, Debug, PartialEq, Eq)]
+pub enum Priming {
+    Zeros,
+    Empty,
+    Huge,
+}
+
+/// <priming> ; <opcode> ; STOP — called as an ordinary contract.
+pub fn opcode_program(opcode: u8, priming: Priming) -> Vec<u8> {
     let mut code = Vec::new();
     for _ in 0..8 {
-        code.extend_from_slice(&[0x60, 0x00]);
+        match priming {
+            Priming::Zeros => code.extend_from_slice(&[0x60, 0x00]),
+            Priming::Empty => {}
+            Priming::Huge => code.extend_from_slice(&[0x63, 0xff, 0xff, 0xff, 0xff]),
+        }
     }
     code.push(opcode);
     code.push(0x00);
@@ -234,13 +258,24 @@ pub fn opcode_program(opcode: u8) -> Vec<u8> {
 }
 
 pub fn opcode_job(opcode: u8, spec: SpecId, run0: &RunCfg) -> Job {
+    opcode_job_with(opcode, spec, run0, Priming::Zeros, 200_000)
+}
+
+/// `gas_limit` 200 000 leaves ample gas for every opcode; 30 000 leaves about 9 000 after the
+/// intrinsic cost, i.e. less than any rule set's CREATE cost.
+pub fn opcode_job_with(opcode: u8, spec: SpecId, run0: &RunCfg, priming: Priming, gas_limit: u64) -> Job {
     let mut db = MemDb::default();
     db.fund(eoa(0), U256::from(10 * ETHER), 0);
-    db.deploy(contract(40), opcode_program(opcode));
+    db.deploy(contract(40), opcode_program(opcode, priming));
     db.accounts.get_mut(&contract(40)).unwrap().info.balance = U256::from(1000u64);
     let mut t = tx(eoa(0), 0, Some(contract(40)), 3, calldata(&[word(7)]));
-    t.gas_limit = 200_000;
-    let case = Case::new(format!("c12:opcode-{opcode:02x}:{}", spec_name(spec)), spec, db, vec![(format!("call(opcode 0x{opcode:02x})"), t)]);
+    t.gas_limit = gas_limit;
+    let name = if priming == Priming::Zeros && gas_limit == 200_000 {
+        format!("c12:opcode-{opcode:02x}:{}", spec_name(spec))
+    } else {
+        format!("c12:opcode-{opcode:02x}:{priming:?}:gas{gas_limit}:{}", spec_name(spec))
+    };
+    let case = Case::new(name, spec, db, vec![(format!("call(opcode 0x{opcode:02x})"), t)]);
     let mut run = run0.clone();
     run.safety = DelegatedSafetyConfig::create_only();
     pipeline_job("c12-opcodes", &case, &run, COARSE, 0, false)
@@ -248,7 +283,7 @@ pub fn opcode_job(opcode: u8, spec: SpecId, run0: &RunCfg) -> Job {
 
 pub fn jobs(tier: Tier) -> Vec<Job> {
     let mut v = Vec::new();
-    let specs = [SpecId::BYZANTIUM, SpecId::PETERSBURG, SpecId::LONDON, SpecId::CANCUN, SpecId::PRAGUE, SpecId::OSAKA];
+    let specs = [SpecId::BYZANTIUM, SpecId::PETERSBURG, SpecId::LONDON, SpecId::CANCUN, SpecId::PRAGUE, SpecId::OSAKA, SpecId::AMSTERDAM];
     let progs = programs();
     for prog in &progs {
         for spec in specs {
@@ -268,14 +303,65 @@ pub fn jobs(tier: Tier) -> Vec<Job> {
         }
     }
     let sweep_specs: &[SpecId] = match tier {
-        Tier::Quick => &[SpecId::PRAGUE, SpecId::OSAKA],
-        Tier::Thorough => &specs,
+        Tier::Quick => &[SpecId::PRAGUE, SpecId::OSAKA, SpecId::AMSTERDAM],
+        Tier::Thorough => &[SpecId::BYZANTIUM, SpecId::PETERSBURG, SpecId::LONDON, SpecId::CANCUN, SpecId::PRAGUE, SpecId::OSAKA, SpecId::AMSTERDAM],
     };
     for &spec in sweep_specs {
         for opcode in 0..=255u8 {
             v.push(opcode_job(opcode, spec, &RunCfg::sequential()));
             v.push(opcode_job(opcode, spec, &RunCfg::parallel(1)));
+            // gas and operand dimensions (seeded change C12b): the same opcode with too little gas
+            // for a create, with an empty stack and with huge operands; which step fails first, and
+            // with which halt reason, must be stock revm's
+            for priming in [Priming::Zeros, Priming::Empty, Priming::Huge] {
+                for gas in [30_000u64, 200_000, (1u64 << 24) + 300_000] {
+                    if priming == Priming::Zeros && gas == 200_000 {
+                        continue;
+                    }
+                    if gas > 1_000_000 && spec != SpecId::AMSTERDAM {
+                        continue;
+                    }
+                    v.push(opcode_job_with(opcode, spec, &RunCfg::sequential(), priming, gas));
+                }
+            }
+        }
+    }
+    // a frame that reaches CREATE2 with a fixed amount of forwarded gas, below and above the create
+    // costs of the rule sets (32 000 up to Osaka, 9 000 regular gas + reservoir state gas on
+    // Amsterdam), from an ordinary contract and towards a delegated account
+    for &spec in sweep_specs {
+        for fwd in [5_000u64, 8_000, 10_000, 20_000, 25_000, 31_000, 33_000, 60_000, 120_000, 250_000] {
+            for big in [false, true] {
+                if big && spec != SpecId::AMSTERDAM {
+                    continue;
+                }
+                for (target, sensitive, tname) in [(contract(F_CREATE2), false, "F"), (a2(), true, "A2")] {
+                    for guard in [true, false] {
+                        for designators in [true, false] {
+                            let mut t = tx(eoa(0), 0, Some(contract(47)), 0, calldata(&[word(1)]));
+                            if big {
+                                t.gas_limit = (1u64 << 24) + 300_000;
+                            }
+                            let prog = Program {
+                                name: "fixed-gas-call",
+                                txs: vec![(format!("e0>relay.call[gas {fwd}]({tname}.create2){}", if big { ":reservoir" } else { "" }), t)],
+                                sensitive,
+                                min_spec: SpecId::BYZANTIUM,
+                            };
+                            let wd = world_with_gas_relay(designators, false, target, fwd);
+                            let wm = world_with_gas_relay(designators, true, target, fwd);
+                            v.extend(guard_job_in(&prog, spec, guard, designators, &RunCfg::sequential(), 0, wd, wm));
+                        }
+                    }
+                }
+            }
         }
     }
     v
+}
+
+fn world_with_gas_relay(designators: bool, mutilated: bool, target: Address, gas: u64) -> MemDb {
+    let mut db = world(designators, mutilated);
+    db.deploy(contract(47), kit::relay_gas(target, gas));
+    db
 }
